@@ -137,7 +137,8 @@ class ModuleEval:
                 raise ModelError("array size < 1")
             return list(range(inst["n"]))
         if k == "pair":
-            return ["p", "n"]
+            # h.Pair (members p, n of h.Diff), or an InstanceBundleType over a flat bundle with the listed members
+            return list(inst.get("members") or ["p", "n"])
         raise ModelError("bad instance kind")
 
     def port_bits(self, iname, elem, pname, width):
@@ -264,9 +265,9 @@ class ModuleEval:
         if p[0] == "sig":
             w = p[2]
             if kind == "pair" and isinstance(v, BundleVal):
-                if set(v.keys()) != {("p",), ("n",)}:
-                    raise ModelError("pair connection needs exactly members p and n")
-                for el in ("p", "n"):
+                if set(v.keys()) != {(el,) for el in elems}:
+                    raise ModelError("pair connection needs exactly members %s" % "/".join(elems))
+                for el in elems:
                     self.union_bits(self.port_bits(iname, el, pname, w), v[(el,)])
                 return
             if isinstance(v, BundleVal):
